@@ -12,6 +12,8 @@ import SoundeventModel.Detection
 import Proofs.Lemmas.Detection
 import Proofs.Lemmas.DetectionGeo
 import Proofs.C07
+import SoundeventModel.DetectionTags
+import Proofs.C19
 namespace SE.Proofs.C08
 open SE SE.Metrics SE.Detection
 
@@ -783,5 +785,137 @@ example :
     = some [(some 0, none, 0, 0), (none, some 0, 0, 0)] := by decide +kernel
 
 end Geo
+
+/-! ### tag layer (follow-up 2): where the class indices come from
+
+  The first two layers see a tag as "the encoder's answer".  Here the answer is the model of
+  `SimpleEncoder` (C19: a dictionary keyed by `(tag.term, tag.value)`, equality of keys = field
+  equality of the term and the value), and the property's clause about the score is proved in
+  terms of tag equality only. -/
+section Tags
+open SE.Encoding SE.Proofs.Lemmas.Encoding
+
+/-- the encoded views the first layer computes with are the encodings of `evaluation/encoding.py`
+    (C19's model) over the same vocabulary: `prediction_encoding` and `classification_encoding` -/
+theorem C08_tags_bridge (cast : Rat → Rat) (vocab : List Tag) (ps : List PredictedTag) (ts : List Tag) :
+    predEnc vocab.length (encPredTags cast vocab ps) = predictionEncoding cast vocab ps ∧
+    classEnc (encTags vocab ts) = classificationEncoding vocab ts := by
+  constructor
+  · apply List.ext_getElem?
+    intro i
+    by_cases hi : i < vocab.length
+    · unfold predictionEncoding
+      rw [fill_get _ _ _ _ _ (by simpa using hi), lastWhere_eq_find_reverse]
+      simp only [predEnc, encPredTags, List.getElem?_map, List.getElem?_range hi, Option.map_some,
+        ← List.map_reverse, List.find?_map]
+      have hf : ((fun p : Option Nat × Rat => p.1 == some i) ∘ fun p : PredictedTag => (encode vocab p.tag, cast p.score))
+          = fun p : PredictedTag => encode vocab p.tag == some i := rfl
+      rw [hf]
+      cases ps.reverse.find? (fun p : PredictedTag => encode vocab p.tag == some i) <;> simp [hi]
+    · have h1 : (predEnc vocab.length (encPredTags cast vocab ps)).length = vocab.length := by simp [predEnc]
+      have h2 := SE.Proofs.C19.C19_prediction_length cast vocab ps
+      simp only [numClasses] at h2
+      rw [List.getElem?_eq_none (by omega), List.getElem?_eq_none (by omega)]
+  · induction ts with
+    | nil => rfl
+    | cons t ts ih =>
+      simp only [encTags, List.map_cons, classificationEncoding] at ih ⊢
+      cases he : encode vocab t with
+      | none => simpa [classEnc] using ih
+      | some k => simp [classEnc]
+
+/-- the row the first layer scores with, entry by entry: for a vocabulary without repeated tags,
+    entry `i` is the probability the prediction gives to the `i`-th vocabulary tag -/
+theorem predRow_eq_probs (cast : Rat → Rat) (vocab : List Tag) (h : vocab.Nodup) (ps : List PredictedTag) :
+    predEnc vocab.length (encPredTags cast vocab ps) = vocab.map (probOf cast ps) := by
+  rw [(C08_tags_bridge cast vocab ps []).1]
+  apply List.ext_getElem?
+  intro i
+  by_cases hi : i < vocab.length
+  · rw [SE.Proofs.C19.C19_scores cast vocab h ps i hi, List.getElem?_map, List.getElem?_eq_getElem hi,
+      Option.map_some]
+    rfl
+  · have h2 := SE.Proofs.C19.C19_prediction_length cast vocab ps
+    simp only [numClasses] at h2
+    rw [List.getElem?_eq_none (by omega), List.getElem?_eq_none (by simpa using hi)]
+
+/-- **the score of a pair is the probability the prediction gives to the annotation's class**, said
+    without any index: for every vocabulary without repeated tags, every annotated tag list and
+    every predicted tag list, what `evaluate_sound_event` computes from the encoder's answers
+    (`tcp` of the encoded class and the encoded score row) is `pairScoreSpec`: the stored score of the
+    last predicted tag *equal* (term with all its fields, and value) to the annotation's first
+    vocabulary tag, 0 when the prediction has no such tag; `1 − Σ` over the vocabulary when the
+    annotation carries no vocabulary tag. -/
+theorem C08_pair_score_is_class_probability (cast : Rat → Rat) (vocab : List Tag) (h : vocab.Nodup)
+    (annTags : List Tag) (ps : List PredictedTag) :
+    tcp ⟨classEnc (encTags vocab annTags), predEnc vocab.length (encPredTags cast vocab ps)⟩
+      = pairScoreSpec cast vocab annTags ps := by
+  rw [(C08_tags_bridge cast vocab ps annTags).2, predRow_eq_probs cast vocab h ps,
+    SE.Proofs.C19.C19_first_in_vocab]
+  unfold pairScoreSpec annClassTag
+  cases hf : annTags.find? (· ∈ vocab) with
+  | none => simp [tcp, noneScore]
+  | some t =>
+    have hv : t ∈ vocab := by simpa using List.find?_some hf
+    obtain ⟨i, hi, hit⟩ := List.getElem_of_mem hv
+    have he : encode vocab t = some i :=
+      (SE.Proofs.C19.C19_encode_iff vocab h t i).mpr (by rw [List.getElem?_eq_getElem hi, hit])
+    simp [tcp, he, hi, hit]
+
+/-- the same for a whole clip: every paired entry `evaluate_clip` produces on sound events with real
+    tags scores `pairScoreSpec` of the two sound events it names (with `C08_pairs_overlap_report_affinity_score`:
+    these are the events whose geometries the matcher paired) -/
+theorem C08_clip_pair_scores (cast : Rat → Rat) (vocab : List Tag) (h : vocab.Nodup)
+    (preds : List TPred) (anns : List TAnn) (ms : List MEntry) (es : List Entry)
+    (hc : MatcherCover ((preds.filter (·.hasGeom)).length) ((anns.filter (·.hasGeom)).length) ms)
+    (he : evalClipT cast vocab preds anns ms = some es) (e : Entry) (hm : e ∈ es) (hp : e.paired = true) :
+    ∃ i j, ∃ (hi : i < preds.length) (hj : j < anns.length), e.src = some i ∧ e.tgt = some j ∧
+      e.score = pairScoreSpec cast vocab (anns[j]).tags (preds[i]).tags := by
+  unfold evalClipT at he
+  have hc' : MatcherCover (((preds.map (TPred.enc cast vocab)).filter (·.hasGeom)).length)
+      (((anns.map (TAnn.enc vocab)).filter (·.hasGeom)).length) ms := by
+    have e1 : ((preds.map (TPred.enc cast vocab)).filter (·.hasGeom)).length = (preds.filter (·.hasGeom)).length := by
+      rw [List.filter_map, List.length_map]; rfl
+    have e2 : ((anns.map (TAnn.enc vocab)).filter (·.hasGeom)).length = (anns.filter (·.hasGeom)).length := by
+      rw [List.filter_map, List.length_map]; rfl
+    rw [e1, e2]; exact hc
+  obtain ⟨m, _, k, l, i, j, _, _, hgi, hgj, hsrc, htgt, _, _, hscore, _⟩ :=
+    C08_pairs_overlap_report_affinity_score vocab.length _ _ ms es hc' he e hm hp
+  have hi : i < preds.length := by
+    have := List.mem_of_getElem? hgi
+    simp only [geomIdx, List.mem_filter, List.mem_range, List.length_map] at this
+    exact this.1
+  have hj : j < anns.length := by
+    have := List.mem_of_getElem? hgj
+    simp only [geomIdx, List.mem_filter, List.mem_range, List.length_map] at this
+    exact this.1
+  refine ⟨i, j, hi, hj, hsrc, htgt, ?_⟩
+  rw [hscore, ← C08_pair_score_is_class_probability cast vocab h]
+  simp [List.getD_eq_getElem?_getD, hi, hj, TPred.enc, TAnn.enc]
+
+/-- two vocabulary tags are different classes as soon as they differ in *any* field of the term or in
+    the value: each is encoded as its own position, and a tag that is no vocabulary tag — however close
+    (same label, same name, same value) — has no class -/
+theorem C08_classes_are_vocabulary_tags (vocab : List Tag) (h : vocab.Nodup) (t : Tag) :
+    (∀ i, encode vocab t = some i ↔ vocab[i]? = some t) ∧ (encode vocab t = none ↔ t ∉ vocab) :=
+  ⟨fun i => SE.Proofs.C19.C19_encode_iff vocab h t i, SE.Proofs.C19.C19_encode_none vocab t⟩
+
+-- non-vacuity, and the replay of the seeded change C08-6: two taxonomies whose terms are both labelled
+-- "taxon"; the vocabulary {gbif Turdus, gbif Parus, ebird Turdus} has three classes; a prediction
+-- {gbif Turdus 7/10, gbif Parus 1/10, ebird Turdus 2/10} paired with a gbif-Turdus annotation scores 7/10,
+-- with an ebird-Turdus annotation 2/10; a near miss of a vocabulary tag (other uri) is no class: 1 − Σ = 0
+private def gbif : Term := { termFromKey "taxon" with name := "gbif:taxon", definition := "GBIF backbone" }
+private def ebird : Term := { termFromKey "taxon" with name := "ebird:taxon", definition := "eBird taxonomy" }
+private def vocab3 : List Tag := [⟨gbif, "Turdus"⟩, ⟨gbif, "Parus"⟩, ⟨ebird, "Turdus"⟩]
+private def pred3 : List PredictedTag := [⟨⟨gbif, "Turdus"⟩, 7/10⟩, ⟨⟨gbif, "Parus"⟩, 1/10⟩, ⟨⟨ebird, "Turdus"⟩, 2/10⟩]
+example : vocab3.Nodup := by decide +kernel
+example : pairScoreSpec id vocab3 [⟨gbif, "Turdus"⟩] pred3 = 7/10 ∧ pairScoreSpec id vocab3 [⟨ebird, "Turdus"⟩] pred3 = 2/10 ∧
+    pairScoreSpec id vocab3 [⟨{ gbif with uri := some "http://gbif.org/taxon" }, "Turdus"⟩] pred3 = 0 ∧
+    encTags vocab3 [⟨gbif, "Turdus"⟩, ⟨ebird, "Turdus"⟩, ⟨{ gbif with label := "Taxon" }, "Turdus"⟩] = [some 0, some 2, none] := by
+  decide +kernel
+example : (evalClipT id vocab3 [⟨0, true, pred3⟩] [⟨1, true, [⟨gbif, "Turdus"⟩]⟩] [⟨some 0, some 0, 1⟩]).map
+    (fun es => es.map (fun e => (e.src, e.tgt, e.aff, e.score))) = some [(some 0, some 0, 1, 7/10)] := by decide +kernel
+
+end Tags
 
 end SE.Proofs.C08
